@@ -106,16 +106,34 @@ Example C13_listed_has_reader_nonvacuous :
   end.
 Proof. vm_compute. repeat split. Qed.
 
-(* shutdown: for ANY list of loop shapes accepted by the checker (the list regenerated from the
-   source is Gen/LoopGen.loops, its obligation Gen/LoopGen.loops_ok), taking the shutdown case
-   ends the loop - at that iteration at the latest *)
-Theorem C13_loops_stop :
+(* FULL CLAUSE (services_stop): "On shutdown request the relay's services stop" - every service
+   loop of the relay exits after close(closed):
+       forall l, In l Gen.LoopGen.loops -> exists n, forall sched, length sched >= n -> run l sched = Exited.
+   It is REFUTED for the code as it is (known finding F21): Hub.run has no shutdown case and no case
+   that leaves it; by C13_loop_without_exit_never_stops such a loop runs for ever (parked in its
+   select). The refutation for the CURRENT source is the generated Gen/LoopGen.services_stop_refuted
+   (re-established on every run from the regenerated loop shapes); below, the same fact for the shape
+   itself: being accepted by the checker does not make a loop stop. The part that holds - every loop
+   that HAS a shutdown case leaves at the iteration that takes it - is the _partial theorem. *)
+Theorem C13_services_stop_refuted :
+  exists l, loop_ok l = true /\ listens l = false /\ forall sched, LoopIR.run l sched = Running.
+Proof.
+  exists (mkloop "internal/crossbar/crossbar.go:run" false false
+            [mkcase "h.register" Fall; mkcase "h.unregister" Fall; mkcase "h.broadcast" Fall]).
+  split; [reflexivity|]. split; [reflexivity|]. apply never_exits. reflexivity.
+Qed.
+Print Assumptions C13_services_stop_refuted.
+
+(* for ANY list of loop shapes accepted by the checker (the list regenerated from the source is
+   Gen/LoopGen.loops, its obligation Gen/LoopGen.loops_ok), taking the shutdown case ends the loop -
+   at that iteration at the latest *)
+Theorem C13_services_stop_partial :
   forall ls, stops_on_close ls = true ->
   forall l, In l ls ->
   forall i c, nth_error (cases l) i = Some c -> is_shutdown c = true ->
   forall sched, In i sched -> LoopIR.run l sched = Exited.
 Proof. exact loops_stop. Qed.
-Print Assumptions C13_loops_stop.
+Print Assumptions C13_services_stop_partial.
 
 (* with the other channels quiet, after close(closed) a checked loop that can see `closed` does
    not sleep, and whatever its select picks ends it *)
@@ -151,7 +169,7 @@ Print Assumptions C13_idle_blocks.
 (* "the relay's services stop" is NOT true of a loop that has no case leaving it: whatever its
    select picks it keeps running (parked in the select when nothing is ready). Today this is the
    shape of Hub.run - it cannot see `closed` and is listed as DEAF in Gen/LoopGen.v - so the hub
-   goroutine outlives a shutdown request (blocked, not spinning); the claim C13_loops_stop makes is
+   goroutine outlives a shutdown request (blocked, not spinning); the claim C13_services_stop_partial makes is
    for the loops that have a shutdown case. *)
 Theorem C13_loop_without_exit_never_stops :
   forall l, forallb (fun c => negb (leaves (tm c))) (cases l) = true ->
